@@ -70,15 +70,23 @@ def gen_epoch_any(rng: random.Random) -> float:
     return float(rng.randrange(10**6, 2**32 - 10**7)) + rng.choice([0.0, 0.5, 0.49, 0.51, rng.random()])
 
 
+# values that appear in the repository's own tests and captures are the most natural "special" values
+FIXTURE_IDS = ["aaaaaa", "a123bc", "3a20b7", "f2239a", "ab1c2d", "000000", "ffffff", "00ff00", "0a0b0c", "a1b2c3", "010000", "800000",
+               "fef0fe", "f0fef0", "0a0a0a", "303030"]
+FIXTURE_KEYS = ["18", "00", "ff", "0a", "03", "06", "08", "01", "80", "7f"]
+SPECIAL_SESSIONS = ["00000000", "01000000", "f050834e", "ffffffff", "00000001", "00000100", "80000000", "7fffffff", "fef0fef0",
+                    "30303030", "f0fe0000", "0000f0fe", "0a0d0a0d", "20202020"]
+
+
 def gen_id(rng) -> str:
     r = rng.random()
-    if r < 0.1:
-        return rng.choice(["000000", "ffffff", "00ff00", "0a0b0c", "a1b2c3"])
+    if r < 0.15:
+        return rng.choice(FIXTURE_IDS)
     return "%06x" % rng.randrange(1 << 24)
 
 
 def gen_key(rng) -> str:
-    return rng.choice(["00", "ff", "0a", "18"]) if rng.random() < 0.15 else "%02x" % rng.randrange(256)
+    return rng.choice(FIXTURE_KEYS) if rng.random() < 0.2 else "%02x" % rng.randrange(256)
 
 
 SCRIPTS = {
@@ -89,7 +97,13 @@ SCRIPTS = {
 }
 
 
+FIXTURE_NAMES = ["my device cool name", "My Switcher Boiler", "Switcher Breeze_5679", "Switcher Run_1E42", "Switcher Boiler CF8B",
+                 "t", "tt", "t" * 32, "t" * 33]
+
+
 def gen_name(rng) -> str:
+    if rng.random() < 0.06:
+        return rng.choice(FIXTURE_NAMES)
     r = rng.random()
     n = rng.choice([0, 1, 2, 2, 3, 8, 10, 11, 15, 16, 17, 19, 31, 32, 33, 40]) if r < 0.6 else rng.randrange(0, 41)
     s = rng.random()
@@ -228,23 +242,27 @@ def gen_sends(rng, n_units: int) -> List[Any]:
 def gen_device(rng, kind: str, idx: int) -> Dict[str, Any]:
     st: Dict[str, Any] = {}
     if kind in ("heater", "plug"):
-        st = {"on": rng.random() < 0.6, "watts": rng.choice([0, 1, 255, 256, 2600, 65535, rng.randrange(65536)]),
-              "time_left": rng.choice([0, 1, 59, 60, 3599, 3600, 86399, rng.randrange(86400)]),
-              "time_on": rng.randrange(86400), "auto_off": rng.choice([3600, 86340, rng.randrange(86400)])}
+        st = {"on": rng.random() < 0.6, "watts": rng.choice([0, 1, 255, 256, 2600, 65535, 61694, 65264, 2570, rng.randrange(65536)]),
+              "time_left": rng.choice([0, 1, 59, 60, 3599, 3600, 86399, 61694, 65264, 65536, 256, 7680, rng.randrange(86400)]),
+              "time_on": rng.choice([61694, 65264, 65536, 15360, rng.randrange(86400), rng.randrange(86400)]),
+              "auto_off": rng.choice([3600, 86340, 61694, 65264, 65536, rng.randrange(86400)])}
     elif kind == "runner":
         st = {"position": rng.choice([0, 1, 50, 99, 100, 101, 255, rng.randrange(256)]),
               "direction": rng.choice(["0000", "0100", "0001"])}
     else:
         st = gen_breeze_state(rng)
-    return {"kind": kind, "ip": "10.%d.%d.%d" % (rng.randrange(256), rng.randrange(256), 2 + idx),
-            "state": st, "delay": 0.002}
+    dev = {"kind": kind, "ip": rng.choice(["192.168.1.%d" % (33 + idx), "192.168.50.%d" % (77 + idx)]) if rng.random() < 0.1 else
+           "10.%d.%d.%d" % (rng.randrange(256), rng.randrange(256), 2 + idx), "state": st, "delay": 0.002}
+    if rng.random() < 0.12:
+        dev["sessions"] = rng.sample(SPECIAL_SESSIONS, rng.randrange(1, 5))     # distinct special values, then hashed ones
+    return dev
 
 
 def gen_breeze_state(rng, remote_id: Optional[str] = None) -> Dict[str, Any]:
     rid = remote_id or "".join(rng.choice("ABCDEFGHIJKLMNOPQRSTUVWXYZ0123456789") for _ in range(rng.choice([1, 4, 7, 8, 8, 8])))
     return {"t_on": rng.random() < 0.5, "t_mode": rng.randrange(1, 6), "t_target": rng.randrange(16, 31),
             "t_fan": rng.randrange(4), "t_swing": rng.randrange(2),
-            "t_temp10": rng.choice([0, 1, 255, 256, 281, 65535, rng.randrange(65536)]), "t_remote": rid}
+            "t_temp10": rng.choice([0, 1, 255, 256, 281, 65535, 61694, 65264, 32767, 32768, rng.randrange(65536)]), "t_remote": rid}
 
 
 def gen_breeze_args(rng, full: bool = False) -> Dict[str, Any]:
@@ -375,6 +393,33 @@ def gen_mixed(rng, n_clients: int, max_ops: int, reply_kinds: List[str], send_fa
         idx[i] += 1
     for ci in range(len(clients)):
         steps.append({"kind": "disconnect", "client": ci})
+    return {"engine": "tcp", "config": cfg, "steps": uidify(steps)}
+
+
+def gen_long(rng, n_ops: int, kinds: Optional[List[str]] = None) -> Dict[str, Any]:
+    """State that builds up: a few hundred operations on one connection / one API object."""
+    cfg = base_config(rng, zone_sensitive=rng.random() < 0.5)
+    devices, clients = make_clients(rng, 1, kinds)
+    cfg["devices"], cfg["clients"] = devices, clients
+    cl = clients[0]
+    steps: List[dict] = [{"kind": "connect", "client": 0}]
+    choices = ops_for(cl)
+    for i in range(n_ops):
+        st = gen_op(rng, rng.choice(choices), cl)
+        st["client"] = 0
+        if rng.random() < 0.1:
+            st["gap"] = rng.choice([0.5, 60.0, 3600.0, 86400.0])
+        if rng.random() < 0.03:
+            st["replies"] = [gen_reply_fault(rng, ["eof", "truncate", "garbage", "ok"]), None, None, None]
+            steps.append(st)
+            steps.append({"kind": "disconnect", "client": 0})
+            steps.append({"kind": "connect", "client": 0})
+            continue
+        steps.append(st)
+        if rng.random() < 0.02:
+            steps.append({"kind": "disconnect", "client": 0})
+            steps.append({"kind": "connect", "client": 0})
+    steps.append({"kind": "disconnect", "client": 0})
     return {"engine": "tcp", "config": cfg, "steps": uidify(steps)}
 
 
@@ -748,7 +793,7 @@ def life_steps(rng, actions, cl) -> List[dict]:
     return steps
 
 
-def gen_c18(rng, index: Optional[int] = None, maxlen: int = 4) -> Dict[str, Any]:
+def gen_c18(rng, index: Optional[int] = None, maxlen: int = 4, long: bool = False) -> Dict[str, Any]:
     cfg = base_config(rng)
     devices, clients = make_clients(rng, 1, [rng.choice(["heater", "plug", "runner", "breeze"])])
     cfg["devices"], cfg["clients"] = devices, clients
@@ -758,7 +803,7 @@ def gen_c18(rng, index: Optional[int] = None, maxlen: int = 4) -> Dict[str, Any]
     else:
         actions = []
         connected = False
-        for _ in range(rng.randrange(1, 13)):
+        for _ in range(rng.randrange(80, 200) if long else rng.randrange(1, 13)):
             opts = [a for a in LIFE_ALPHA if (
                 (a in ("connect", "aenter", "refused") and not connected) or
                 (a in ("disconnect", "aexit", "aexit_exc")) or
